@@ -208,6 +208,33 @@ func c16Run(r *core.Run) {
 			}
 		}
 	}
+	// every code point on its own and between two letters, all spellings (quick: everything below U+3000 and the first and
+	// last 64 code points of every block of 4096; thorough: every Unicode scalar value)
+	cn := 0
+	for c := rune(1); c <= 0x10FFFF; c++ {
+		if c >= 0xD800 && c <= 0xDFFF {
+			continue
+		}
+		if !r.Thorough() && c >= 0x3000 && c&0xFFF >= 64 && c&0xFFF < 0xFC0 {
+			continue
+		}
+		cn++
+		if !r.Mine(cn / 32) {
+			continue
+		}
+		if cn%4096 == 0 && r.Expired() {
+			break
+		}
+		for _, str := range []string{string(c), "a" + string(c) + "b"} {
+			r.Add("states", 1)
+			for _, sp := range c16Spellings(str) {
+				r.Begin(map[string]any{"expr": sp.Expr, "doc": sp.Doc})
+				if v := c16CheckSpelling(r, str, sp); v != nil {
+					r.Violate(v)
+				}
+			}
+		}
+	}
 	// lone surrogate escapes followed by a tail: the decoder may reject the identifier or substitute U+FFFD,
 	// but it must not swallow or reinterpret the characters that follow
 	tailAlpha := []string{"a", "u", "0", "4", "1", "D", "E", `\\`, `\u`, `\uDE00`, "x"}
